@@ -23,7 +23,7 @@ pub fn run(args: &Args, r: &mut Report) {
         "c08-no-mixture",
         "c08-crash-restart-judged",
     ]);
-    let n_hist = args.budget(160, 5_000);
+    let n_hist = args.budget(480, 5_000);
     let mut crash_runs = 0u64;
     let mut crash_points_total = 0u64;
     for i in 0..n_hist {
